@@ -269,7 +269,7 @@ def c05_families(rng, tier):
     keys = sorted(keys)
     rnd = [rng.next() >> rng.below(64) for _ in range(20000)]
     fams = [
-        fam("find_in_products", ["fip %d" % k for k in keys + rnd],
+        fam("find_in_products", ["fipp %d" % k for k in keys + rnd],
             "Five::find_in_products on every product of five rank primes and each +-1 (every key class a comparison search "
             "can distinguish), the extremes of usize, seeded usize of every magnitude",
             categories={"product_classes": len(keys), "random_usize": len(rnd)}, profiles=["release", "chk"], pinned=True),
@@ -373,24 +373,24 @@ def made_hands(rng, n, count, op):
     return [line(op, h) for h in out]
 
 
-def six_seven_families(rng, tier, op, what):
+def six_seven_families(rng, tier, op, what, pinned=True):
     nq = 60000 if tier == "quick" else 600000
     fams = []
     for n in (6, 7):
         sh, cats = seeded_hands(rng, n, nq, "%s %d" % (op, n))
         fams.append(fam("rows%d" % n, row_targeted(rng, n, "%s %d" % (op, n)),
                         "for EVERY five-slot combination of %d slots a hand whose unique best five sits exactly in those slots, "
-                        "x3 kinds of best hand, plus a slot rotation of each; %s" % (n, what), pinned=True))
+                        "x3 kinds of best hand, plus a slot rotation of each; %s" % (n, what), pinned=pinned))
         fams.append(fam("made%d" % n, made_hands(rng, n, nq // 6, "%s %d" % (op, n)),
                         "hands built around a straight flush / quads / full house / flush / straight plus random cards, shuffled slots",
-                        pinned=True))
+                        pinned=pinned))
         fams.append(fam("seeded%d" % n, sh, "seeded random %d distinct cards in random slot order (category distribution of the "
-                        "best hand measured on the first 20000)" % n, categories=cats, pinned=True))
+                        "best hand measured on the first 20000)" % n, categories=cats, pinned=pinned))
     if tier == "thorough":
         fams.append(fam_cmd("all_sixes", ["hands", "--k", "6", "--op", "%s 6" % op],
-                            "ALL 20,358,520 six-card subsets in deck order", pinned=True))
+                            "ALL 20,358,520 six-card subsets in deck order", pinned=pinned))
         fams.append(fam_cmd("sevens_slice", ["hands", "--k", "7", "--op", "%s 7" % op, "--stride", "16", "--offset", str(rng.below(16))],
-                            "every 16th of the 133,784,560 seven-card subsets in deck order (seeded offset)", exhaustive=False, pinned=True))
+                            "every 16th of the 133,784,560 seven-card subsets in deck order (seeded offset)", exhaustive=False, pinned=pinned))
     return fams
 
 
@@ -401,7 +401,9 @@ def c02_families(rng, tier):
 def c03_families(rng, tier):
     n5 = 20000 if tier == "quick" else 200000
     sh, cats = shuffled_fives(rng, n5, "rank 5")
-    fams = six_seven_families(rng, tier, "rank", "value and reported hand compared exactly")
+    # the property lets the code report ANY sorted witness of the best value; the model reports the first minimal one,
+    # so an exact disagreement is not by itself a failing input (the oracle decides)
+    fams = six_seven_families(rng, tier, "rank", "value and reported hand compared exactly", pinned=False)
     fams.append(fam("fives_identity", sh, "five-card hands: the reported hand is the input", categories=cats, pinned=True))
     return fams
 
@@ -516,8 +518,9 @@ def c07_families(rng, tier):
         rnd.append("hrcmp %d %d" % (x, y))
     return [
         fam("boundary_pairs", pairs, "ALL ordered pairs over every category boundary +-1, 0, 7462..7465, powers of two, 65534/65535 and 12 seeded "
-            "values: cmp, partial_cmp, ==, !=, <, <=, >, >=", pinned=True),
-        fam("seeded_pairs", rnd, "seeded pairs: both valid / mixed / both arbitrary u16, some equal", categories=cats, pinned=True),
+            "values: cmp, partial_cmp, ==, !=, <, <=, >, >= (the ORDER AMONG INVALID RANKS is the model's choice, not demanded by the "
+            "property, so a disagreement here is not by itself a failing input: the oracle decides)"),
+        fam("seeded_pairs", rnd, "seeded pairs: both valid / mixed / both arbitrary u16, some equal", categories=cats),
     ]
 
 
